@@ -215,6 +215,7 @@ func checkC03(c *Ctx) {
 		"how an entry is classified on a real clock, nor FailedUpdateTTL durations."
 	r.Rule("R03.1", "every lone-call path's outcome is allowed by the documented table in every input cell consistent with the path's facts", 2)
 	r.Rule("R03.2", "every documented cell is reachable (has at least one feasible path)", 2)
+	r.Rule("R03.5", "the background build of a stale-served Get runs under a context detached from the caller's cancellation (obligations of C06 R06.4)", 3)
 	r.Rule("R03.4", "a cached failure is what the table's 'failure cached' input means: every build failure is cached, for FailedUpdateTTL (obligations of C05 R05.3/R05.6)", 6)
 	r.Rule("R03.3", "entry state as seen by the frontend: the in-module backends classify fresh / absent / expired (with the value) by E vs now", 3)
 	r.NotDecided = []string{"classification of an entry on a real clock", "backend-error cells (property is silent; C02 applies)", "concurrent calls (C01/C02/C05)"}
@@ -233,6 +234,9 @@ func checkC03(c *Ctx) {
 			c.c07Read(b)
 		}
 	}, func(o *coreObl) (string, bool) { return "R03.3", o.Rule == "R07.2" })
+	// R03.5: "returned immediately while the build runs in background": that build is not tied to the caller's context, which is
+	// typically cancelled right after Get returned (C06 R06.4)
+	c.borrow("C06", func() { c.c06Detached() }, func(o *coreObl) (string, bool) { return "R03.5", o.Rule == "R06.4" })
 	// R03.4: "whether a failure is cached for the key" — the failure cache holds a build failure for FailedUpdateTTL: written under a
 	// private default-TTL cell (not the caller's TTL), the cell being what WithTTL(ctx, DefaultTTL, false) installs, with the
 	// configured/default FailedUpdateTTL as the cache's TimeToLive
